@@ -16,14 +16,18 @@ VARIABLE hist
 HasEscalate(c) == \E e \in ErrTypes : Lookup(c, e) = "Escalate"
 
 (* the whole generated domain *)
-GenConfigs  == FullConfigs({"one", "all"}, {"default", "Restart", "Resume", "Escalate"}, {0, 1, 2}, {"zero", "short", "long"}, BOOLEAN)
+GenConfigs  == FullConfigs({"one", "all"}, {"default", "Restart", "Resume", "Escalate"}, {0, 1, 2}, {"zero", "short", "long"}, BOOLEAN, BOOLEAN)
 (* a core used for exhaustive short histories: every lookup shape, one window per budget *)
-CoreConfigs == {c \in FullConfigs({"one", "all"}, {"default", "Restart"}, {0, 1}, {"zero", "long"}, {FALSE}) :
-                  (c.max = 1) = (c.win = "long")}
+CoreConfigs == {c \in FullConfigs({"one", "all"}, {"default", "Restart"}, {0, 1}, {"zero", "long"}, {FALSE}, BOOLEAN) :
+                  (c.max = 1) = (c.win = "long") /\ (c.mix => c.ptyped = "default")}
 CorePConfigs == {[dir |-> "Stop", onsig |-> "ignore"], [dir |-> "Restart", onsig |-> "fail"],
                  [dir |-> "Resume", onsig |-> "fail"], [dir |-> "Escalate", onsig |-> "fail"]}
 (* p's own failures: a few child configurations, every configuration of p *)
-PFaultConfigs == {c \in CoreConfigs : c.typed \in {"Escalate", "Restart"} /\ c.ptyped = "default" /\ c.any = "none" /\ c.strat = "all"}
+PFaultConfigs == {c \in CoreConfigs : c.typed \in {"Escalate", "Restart"} /\ c.ptyped = "default" /\ c.any = "none" /\ c.strat = "all" /\ ~c.mix}
+(* restart windows: a Restart rule with a budget inside the short window, with and without backoff; the  *)
+(* histories over these contain Ticks (time passing beyond the window)                                    *)
+WinConfigs == {c \in FullConfigs({"one", "all"}, {"default"}, {1, 2}, {"short"}, BOOLEAN, {FALSE}) :
+                 c.typed = "Restart" /\ c.any = "none" /\ ~c.late}
 (* the seeded sample *)
 SampleConfigs  == {c \in RawConfigs : Canon(c)}
 SamplePConfigs == RawPConfigs
